@@ -401,7 +401,7 @@ func c07R2(c *Ctx) {
 			}
 		})
 	}
-	c.minCount(rule, "single-result type assertions in the run path", n, 10)
+	c.minCount(rule, "single-result type assertions in the run path", n, 6)
 }
 
 // checkIntSchemaAssert: the receiver of Unserialize is a PropertySchema whose type is built by schema.NewIntSchema,
@@ -1169,6 +1169,26 @@ func c07R7(c *Ctx) {
 			return false, "parameter " + x.Name() + " of a function with several callers"
 		case *ssa.MakeMap:
 			return true, ""
+		case *ssa.Call:
+			// the single result of a repo helper (a copy helper, generic or not) all of whose returns are non-nil maps
+			if callee := x.Common().StaticCallee(); callee != nil && isRepoFn(callee) && len(callee.Blocks) > 0 && callee.Signature.Results().Len() == 1 {
+				n := 0
+				for _, b := range callee.Blocks {
+					if len(b.Instrs) == 0 {
+						continue
+					}
+					if ret, isRet := b.Instrs[len(b.Instrs)-1].(*ssa.Return); isRet {
+						n++
+						if ok, why := nonNil(retResults(ret)[0], d+1); !ok {
+							return false, "result of " + c.fnName(callee) + ": " + why
+						}
+					}
+				}
+				if n > 0 {
+					return true, ""
+				}
+			}
+			return false, "result of " + calleeName(x.Common())
 		case *ssa.Phi:
 			for _, e := range x.Edges {
 				if e == ssa.Value(x) {
